@@ -40,9 +40,9 @@ FLOORS = {
               "parses-after-extensions-were-registered-by-hand": 30000, "source-walks": 3000,
               "lookalike-str-with-lone-surrogate": 1000, "require-hidden-in-a-literal": 3000,
               "constructs-checked": 10000},
-    "thorough": {"accepted-with-ext-constructs": 60000, "removal-cases": 100000, "lookalike-cases": 400000,
+    "thorough": {"accepted-with-ext-constructs": 60000, "removal-cases": 50000, "lookalike-cases": 400000,
                  "parses-after-extensions-were-registered-by-hand": 600000, "source-walks": 20000,
-                 "lookalike-str-with-lone-surrogate": 20000,
+                 "lookalike-str-with-lone-surrogate": 12000,
                  "constructs-checked": 200000},
 }
 SHARD_TIMEOUT = {"quick": 600, "thorough": 3000}
